@@ -43,7 +43,7 @@ THEOREMS = [
 LEAN_MODULES = ["PorepyVerif.C19.Props"]
 AUDIT = "PorepyVerif/C19/Audit.lean"
 DRIVER = "PorepyVerif/C19/Driver.lean"
-N = {"quick": 140, "thorough": 2500}
+N = {"quick": 110, "thorough": 2000}
 RULE = ("grids of dimension 1-3 from CartGrid / TensorGrid / StructuredTriangleGrid / StructuredTetrahedralGrid / TriangleGrid "
         "(given or Delaunay triangulation, counter-clockwise, clockwise or mixed cell orientation) / TetrahedralGrid (Delaunay) / "
         "generic pp.Grid (star-shaped and convex polygons with random face directions, merged Cartesian cells giving L-shapes and "
@@ -319,6 +319,9 @@ def compare(impl, model, case):
         xs, ys = [F(x) for x in case["coords"][0]], [F(x) for x in case["coords"][1]]
         if F(model["_tensor_volume_sum"]) != (xs[-1] - xs[0]) * (ys[-1] - ys[0]):
             return "model tensor volume sum differs from product of extents"
+    if "expect_oriented" in case and isinstance(impl, dict) and "oriented" in impl and impl["oriented"] != case["expect_oriented"]:
+        return (f"grid built by {case['kind']} takes the {'oriented' if impl['oriented'] else 'legacy'} path of _compute_geometry_2d, "
+                f"the construction implies {'oriented' if case['expect_oriented'] else 'legacy'}")
     a = {k: v for k, v in impl.items() if k != "tensor_cells"}
     b = {k: v for k, v in m.items() if k != "tensor_cells"}
     return deep_compare(a, b, "", tol=TOL_MODEL if case["dim"] < 3 else 1e-10)
@@ -551,7 +554,9 @@ def _gen_tri(rng, tier):
                     tri.append(t)
         meas = nx * hx * ny * hy
         convex = True
+        expect = True if mode in ("ccw", "cw") else None
     else:
+        expect = None
         n = rng.randint(4, 9 if tier == "quick" else 14)
         while True:
             p = [[Fraction(rng.randint(-40, 40), 16) + Fraction(rng.randint(-9, 9), 1000), Fraction(rng.randint(-40, 40), 16) + Fraction(rng.randint(-9, 9), 1000)] for _ in range(n)]
@@ -576,6 +581,8 @@ def _gen_tri(rng, tier):
     elif r < 0.5:
         case["affine"] = _affine_embed(rng)
         case["embedded"] = True
+    if expect is not None and not case.get("embedded"):
+        case["expect_oriented"] = expect
     return case
 
 
@@ -653,15 +660,19 @@ def _gen_polygon(rng, tier):
         order = order[::-1]
     faces, cell = [], []
     legacy = convex and rng.random() < 0.35  # signs unrelated to the face direction: legacy path
+    s0 = []
     for i in range(n):
         a, b = order[i], order[(i + 1) % n]
         s = 1
         if rng.random() < 0.5:
             a, b, s = b, a, -1
+        s0.append(s)
         if legacy:
             s = rng.choice([1, -1])
         faces.append([a, b])
         cell.append([i, s])
+    if legacy and (all(c[1] == t for c, t in zip(cell, s0)) or all(c[1] == -t for c, t in zip(cell, s0))):
+        legacy = False  # the random signs happen to form consistent loops
     perm = list(range(n))
     rng.shuffle(perm)  # storage order of the faces
     faces2 = [faces[i] for i in perm]
@@ -677,6 +688,8 @@ def _gen_polygon(rng, tier):
     elif r < 0.5:
         case["affine"] = _affine_embed(rng)
         case["embedded"] = True
+    if not case.get("embedded"):
+        case["expect_oriented"] = not legacy
     return case
 
 
@@ -734,7 +747,7 @@ def _gen_merged(rng, tier):
     for c in cells2:
         rng.shuffle(c)
     case = {"kind": "generic", "dim": 2, "nodes": [[frac(p[0]), frac(p[1]), "0"] for p in pts], "faces": faces2, "cells": cells2,
-            "measure": frac(nx * hx * ny * hy), "planar": True, "convex": False}
+            "measure": frac(nx * hx * ny * hy), "planar": True, "convex": False, "expect_oriented": True}
     if rng.random() < 0.6:
         case["perturb"] = _interior_perturb(rng, pts, [0, 0], [nx * hx, ny * hy], min(hx, hy), 2, amp=Fraction(1, 10))
     nf = len(faces2)
@@ -785,6 +798,59 @@ def _gen_prism(rng, tier):
     return case
 
 
+def _gen_islands(rng, tier):
+    """disjoint convex polygons with independent loop orientation (orientation checks 2/3 and 3/3);
+    sometimes the second one is the mirror image of the first, so that the plane normal sums to zero"""
+    mirror = rng.random() < 0.4
+    k = 2 if mirror else rng.choice([2, 2, 3])
+    nodes, faces, cells = [], [], []
+    area = Fraction(0)
+    first = None
+    for i in range(k):
+        if i == 1 and mirror:
+            pts = [(-x, y) for x, y in first]
+        elif i == 0 and mirror:
+            # dyadic convex polygon: binary64 arithmetic is exact, the plane normal cancels to exactly zero
+            ring = [(8, 0), (7, 4), (4, 7), (0, 8), (-4, 7), (-7, 4), (-8, 0), (-7, -4), (-4, -7), (0, -8), (4, -7), (7, -4)]
+            sel = sorted(rng.sample(range(len(ring)), rng.randint(3, 7)))
+            while max((sel[(j + 1) % len(sel)] - sel[j]) % len(ring) for j in range(len(sel))) >= len(ring) // 2:
+                sel = sorted(rng.sample(range(len(ring)), rng.randint(3, 7)))
+            r = Fraction(rng.choice([1, 2, 3]), 16)
+            pts = [(ring[j][0] * r, ring[j][1] * r) for j in sel]
+            if rng.random() < 0.5:
+                pts = pts[::-1]
+        else:
+            ts = sorted(set(Fraction(rng.randint(-30, 30), 10) for _ in range(rng.randint(3, 6))))
+            while len(ts) < 3:
+                ts = sorted(set(Fraction(rng.randint(-30, 30), 10) for _ in range(5)))
+            r = Fraction(rng.randint(4, 8), 8)
+            pts = [(r * (1 - t * t) / (1 + t * t), r * 2 * t / (1 + t * t)) for t in ts]
+            if rng.random() < 0.5:
+                pts = pts[::-1]
+        if first is None:
+            first = pts
+        n = len(pts)
+        area += abs(sum(pts[j][0] * pts[(j + 1) % n][1] - pts[(j + 1) % n][0] * pts[j][1] for j in range(n))) / 2
+        base = len(nodes)
+        nodes += [[frac(x + 3 * i), frac(y), "0"] for x, y in pts]
+        cell = []
+        for j in range(n):
+            a, b, sg = base + j, base + (j + 1) % n, 1
+            if rng.random() < 0.5:
+                a, b, sg = b, a, -1
+            cell.append([len(faces), sg])
+            faces.append([a, b])
+        cells.append(cell)
+    case = {"kind": "generic", "dim": 2, "nodes": nodes, "faces": faces, "cells": cells, "measure": frac(area), "planar": True, "convex": True,
+            "islands": True}
+    if mirror:
+        case["expect_oriented"] = False
+    if rng.random() < 0.3 and not mirror:
+        case["affine"] = _affine_embed(rng)
+        case["embedded"] = True
+    return case
+
+
 def gen_case(rng, tier):
     r = rng.random()
     if r < 0.12:
@@ -801,10 +867,14 @@ def gen_case(rng, tier):
                 case["flip_faces"] = sorted(rng.sample(range(nf), rng.randint(1, max(1, nf // 3))))
             elif q < 0.55:  # sign-only flips of boundary-or-interior rows: loops break, legacy path, cells stay convex
                 case["flip_signs"] = sorted(rng.sample(range(nf), rng.randint(1, max(1, nf // 4))))
+        if not case.get("embedded"):
+            case["expect_oriented"] = not case.get("flip_signs")
     elif r < 0.52:
         case = _gen_tri(rng, tier)
-    elif r < 0.62:
+    elif r < 0.60:
         case = _gen_polygon(rng, tier)
+    elif r < 0.64:
+        case = _gen_islands(rng, tier)
     elif r < 0.72:
         case = _gen_merged(rng, tier)
     elif r < 0.88:
@@ -859,10 +929,9 @@ def stats(cases, impl_outs):
             "perturbed": sum(1 for c in cases if c.get("perturb")), "affine": sum(1 for c in cases if c.get("affine") and not c.get("embedded")),
             "embedded_oracle_only": sum(1 for c in cases if c.get("embedded")), "reoriented_faces": sum(1 for c in cases if c.get("flip_faces")),
             "sign_only_flips": sum(1 for c in cases if c.get("flip_signs")), "nonplanar_3d": sum(1 for c in cases if not c.get("planar", True)),
-            "nonconvex_cells": sum(1 for c in cases if not c.get("convex", True)),
+            "nonconvex_cells": sum(1 for c in cases if not c.get("convex", True)), "islands": sum(1 for c in cases if c.get("islands")),
             "legacy_path_2d": sum(1 for o in impl_outs if isinstance(o, dict) and o.get("oriented") is False),
             "oriented_path_2d": sum(1 for o in impl_outs if isinstance(o, dict) and o.get("oriented") is True),
             "impl_errors": sum(1 for o in impl_outs if isinstance(o, dict) and "err" in o)}
 
 
-DISABLED = True
